@@ -610,8 +610,8 @@ OBLIGATIONS = [
     ),
     Obligation(
         "scope_depth3", ob_scope, tiers=("thorough",),
-        bounds="three nested scopes on the same key (body ops only at no level, pre-state without thread-local entry)",
-        parts={"thorough": _parts_scope(3, False)}, timeout={"thorough": 1500},
+        bounds="three nested scopes on the same unregistered key (body ops only at no level, pre-state without thread-local entry)",
+        parts={"thorough": [p for p in _parts_scope(3, False) if p["kind"] == 1]}, timeout={"thorough": 900},  # unregistered key only (the whole tier must fit ~45 min)
         symbolic="finite-domain choices per level",
     ),
     Obligation(
@@ -628,11 +628,11 @@ OBLIGATIONS = [
         bounds="thread 0: one scope (every swap/overlay/body/exit choice, detype() inside); thread 1: reads of every read "
                "path at arbitrary points r1<=r2(<=r3) of thread 0's progress, as an independent thread or inheriting at a spawn point "
                "(quick: registered set variable, spawn in {none, after step 1, after step 2}, last read after thread 0 ends; "
-               "thorough: both variable kinds, set/unset, every spawn point, three free reads)",
+               "thorough: both variable kinds, set/unset, spawn in {none, after step 1, 2, 4}, three free reads)",
         pre=["0 <= r1 <= r2 <= r3 <= 5", "0 <= how0 < 3", "0 <= body0 < 4", "0 <= ov0 < 3"],
         parts={"quick": [dict(kind=0, g=1, sw0=a, spawn_at=sp, r3=5) for a in range(3) for sp in (-1, 1, 2)],
                "thorough": [dict(kind=k, g=g, sw0=a, spawn_at=sp) for k in (0, 1) for g in (0, 1) for a in range(3)
-                            for sp in range(-1, 6)]},
+                            for sp in (-1, 1, 2, 4)]},
         timeout={"quick": 240, "thorough": 1500},
         symbolic="read positions r1<=r2<=r3, spawn point, thread 0's overlay/body/exit choices",
     ),
